@@ -201,7 +201,7 @@ func (p *caseStmt) Then(cb *CodeBuilder, src ...ast.Node) {
 						pos, end, "cannot use %s (type %v) as type %v", src, arg.Type, types.Default(p.tag.Type))
 				}
 			} else { // switch {...}
-				if !types.AssignableTo(arg.Type, types.Typ[types.Bool]) && arg.Type != TyEmptyInterface {
+				if arg.Type == nil || !types.AssignableTo(arg.Type, types.Typ[types.Bool]) && arg.Type != TyEmptyInterface {
 					src, pos, end := cb.loadExpr(arg.Src)
 					cb.panicCodeErrorf(pos, end, "cannot use %s (type %v) as type bool", src, arg.Type)
 				}
